@@ -56,6 +56,11 @@ def gen_case(rng, wd, job_exe):
             steps.append("e:%d" % n)
             err += stream("A", n, ne)
             ne += n
+    # the job is stopped for a while and continued (an operator's kill -STOP/-CONT, a CPU limiter): it is not over
+    c["paused"] = 0
+    if rng.random() < 0.12:
+        c["paused"] = rng.choice([100, 250])
+        steps.insert(rng.randint(1, len(steps)), "z:%d" % c["paused"])
     c["sleep"] = 0
     if rng.random() < 0.15:
         c["sleep"] = rng.choice([150, 400])
@@ -259,8 +264,9 @@ def run_case(root, part, rng, stored=None):
                     rt = echsx.jfield(j, "X-REAL-TIME")
                     rt = float(rt.rstrip("s")) if rt else None
                     # (the start stamp is taken after the spawn call has returned)
-                    if rt is None or rt < c["sleep"] / 1000.0 - 0.1 or rt > c["sleep"] / 1000.0 + 5.0:
-                        fail("journal-times", "job slept %d ms, journal says X-REAL-TIME %s" % (c["sleep"], rt))
+                    took = c["sleep"] + c.get("paused", 0)
+                    if rt is None or rt < took / 1000.0 - 0.1 or rt > took / 1000.0 + 5.0:
+                        fail("journal-times", "job slept %d ms and was stopped for %d, journal says X-REAL-TIME %s" % (c["sleep"], c.get("paused", 0), rt))
                     ds, dc = echsx.jfield(j, "DTSTART"), echsx.jfield(j, "COMPLETED")
                     if not ds or not dc or ds > dc:
                         fail("journal-times", "DTSTART %s COMPLETED %s" % (ds, dc))
@@ -272,6 +278,8 @@ def run_case(root, part, rng, stored=None):
                         os.unlink(t)
                     except OSError:
                         pass
+        if c.get("paused") and not c["norun"]:
+            part.count("jobs_stopped_and_continued")
         part.count("bytes_routed", len(c["stdout"]) + len(c["stderr"]))
         part.count("mails_recorded", 1 if r.mail else 0)
         part.count("tmpfiles_seen", len(r.tmpfiles))
